@@ -14,20 +14,22 @@ theorem c15_bfs_iff (g : Graph) (hs : g.simpleB = true) (R : List Nat) (hR : ∀
     (s t b : Nat) (hsn : s < g.n) (htn : t < g.n) :
     isBfsReachable g R s t b = true ↔
       ∃ es : List Nat, es.length ≤ b ∧ (∀ e ∈ es, e ∈ R) ∧ isWalk g es s t = true := by
-  sorry
+  have _ := htn
+  exact Spanner.bfs_iff g hs R hR s t b hsn
 
 /-- retained and dropped edges partition the edge set (in scan order) -/
 theorem c15_partition (g : Graph) (k : Nat) (scan : List Nat) :
     ((constructSpanner g k scan).1 ++ (constructSpanner g k scan).2).Perm scan ∧
     (constructSpanner g k scan).1.Sublist scan ∧ (constructSpanner g k scan).2.Sublist scan := by
-  sorry
+  exact Spanner.spanner_partition g k scan
 
 /-- the spanner is a subgraph of the input carrying the input's weights: its i-th edge is the retained
 edge `R[i]` with the same endpoints and the same weight -/
 theorem c15_weights (g : Graph) (R : List Nat) (i : Nat) (hi : i < R.length) :
     (spannerGraph g R).src i = g.src (R.getD i 0) ∧ (spannerGraph g R).tgt i = g.tgt (R.getD i 0) ∧
     (spannerGraph g R).weight i = g.weight (R.getD i 0) := by
-  sorry
+  simp [spannerGraph, Graph.src, Graph.tgt, Graph.weight, List.getD_eq_getElem?_getD, List.getElem?_map,
+    List.getElem?_eq_getElem hi]
 
 /-- **stretch**: every dropped edge `(u,v)` has a `u–v` walk of at most `2k-1` retained edges none of
 which is heavier than `(u,v)` -/
@@ -36,17 +38,17 @@ theorem c15_stretch (g : Graph) (hs : g.simpleB = true) (k : Nat) (hk : 1 ≤ k)
     ∀ e ∈ (constructSpanner g k scan).2,
       ∃ es : List Nat, es.length ≤ 2 * k - 1 ∧ isWalk g es (g.src e) (g.tgt e) = true ∧
         ∀ f ∈ es, f ∈ (constructSpanner g k scan).1 ∧ g.weight f ≤ g.weight e := by
-  sorry
+  exact Spanner.spanner_stretch g hs k hk scan hscan
 
 /-- **girth**: the retained subgraph has no cycle of `2k` or fewer edges -/
 theorem c15_girth (g : Graph) (hs : g.simpleB = true) (k : Nat) (hk : 1 ≤ k) (scan : List Nat)
     (hscan : scanOkB g scan = true) :
     ∀ C, Circuit g C → (∀ e ∈ C, e ∈ (constructSpanner g k scan).1) → 2 * k < C.length := by
-  sorry
+  exact Spanner.spanner_girth g hs k hk scan hscan
 
 /-- with `k = 1` every edge of a simple graph is retained (C06: the approximation is then exact) -/
 theorem c15_k1 (g : Graph) (hs : g.simpleB = true) (scan : List Nat) (hscan : scanOkB g scan = true) :
     constructSpanner g 1 scan = (scan, []) := by
-  sorry
+  exact Spanner.spanner_k1 g hs scan hscan
 
 end Parmcb.C15
